@@ -7,6 +7,7 @@ from .. import bits, paths
 from ..core import call_attr, calls_in, const, dotted, is_const, kwarg, norm, slice_parts, text, walk_local
 
 EXPLANATION = [
+    'C08.fcs-negotiation: FCS negotiation converges: a refusal of the FCS option suggests a value the refusing side accepts (never an echo), a request for no FCS is always accepted, and the requester adopts the suggested setting into fcs_enabled before it configures again.',
     'C08.bytes-of-number: no single-argument bytes() call is applied to a flag (an attribute or parameter declared bool, a comparison, a boolean expression): bytes(True) is one zero byte, not the byte 0x01.',
     'C08.one-shot: no name bound to a generator expression or to filter() / map() / zip() / reversed() / enumerate() is read in more than one consuming position or inside a loop that evaluates it repeatedly: such an iterator is empty after its first walk.',
     'C08.response-echo: both channel classes answer a Disconnection Request by echoing the request\'s own destination_cid and source_cid (same rule as C09.response-echo): with different CIDs at the two ends the requester still finds the channel that asked, so a failed set-up ends with both ends closed.',
@@ -536,7 +537,39 @@ def bytes_of_number_rule(ctx):
     bytes_of_number(ctx, 'C08.bytes-of-number', ['bumble.l2cap'])
 
 
+def fcs_negotiation(ctx):
+    """Configuration converges.  A refusal (UNACCEPTABLE_PARAMETERS) must carry a value that the refusing side would accept,
+    and the requester must adopt it before it asks again -- an echo of the refused value, or a requester that re-sends its
+    own wish, makes the two ends exchange the same two frames for ever."""
+    R, p = ctx.r, ctx.p
+    rule = 'C08.fcs-negotiation'
+    rq = p.find('bumble.l2cap.ClassicChannel.on_configure_request')
+    rs = p.find('bumble.l2cap.ClassicChannel.on_configure_response')
+    if rq is None or rs is None:
+        R.bad(rule, 'bumble.l2cap.ClassicChannel.on_configure_request / on_configure_response', 'anchor missing')
+        return
+    arms = [c for m_ in ast.walk(rq) if isinstance(m_, ast.Match) for c in m_.cases if norm(c.pattern).endswith('ParameterType.FCS')]
+    R.check(len(arms) == 1, rule, 'bumble.l2cap.ClassicChannel.on_configure_request | FCS arm', 'one arm handles the FCS option', f'{len(arms)} arms', p.loc(rq))
+    if len(arms) == 1:
+        arm = arms[0]
+        refusals = [st for st in ast.walk(arm) if isinstance(st, ast.Assign) and dotted(st.targets[0]) == 'replied_options' and any('UNACCEPTABLE' in norm(x) for x in ast.walk(getattr(st, '_parent', arm)) if isinstance(x, ast.Attribute))]
+        echo = [st for st in refusals if norm(st.value) == '[option]']
+        R.check(bool(refusals) and not echo, rule, 'bumble.l2cap.ClassicChannel.on_configure_request | refusal suggests an acceptable value', 'the refused FCS value is not echoed back',
+                'the FCS refusal echoes the refused option: the requester "re-configures with what is suggested", i.e. asks the same thing again, for ever', p.loc(arm.pattern))
+        accepts = [n_ for n_ in ast.walk(arm) if isinstance(n_, ast.If) and any(isinstance(x, ast.Assign) and dotted(x.targets[0]) == 'self.fcs_enabled' for x in n_.body)]
+        ok = any(any(norm(v) == 'not enabled' for v in (t.test.values if isinstance(t.test, ast.BoolOp) and isinstance(t.test.op, ast.Or) else [t.test])) for t in accepts)
+        R.check(ok, rule, 'bumble.l2cap.ClassicChannel.on_configure_request | "no FCS" always acceptable', 'a request for no FCS is accepted whether or not the option is supported',
+                'a peer that asks for "no FCS" (the value suggested in a refusal) is refused too when the option is unsupported: the negotiation cannot converge', p.loc(arm.pattern))
+    # requester side: the suggested value is adopted
+    branch = [n_ for n_ in walk_local(rs) if isinstance(n_, ast.If) and 'FAILURE_UNACCEPTABLE_PARAMETERS' in norm(n_.test)]
+    adopt = [x for b in branch for x in ast.walk(ast.Module(body=b.body, type_ignores=[])) if isinstance(x, ast.Assign) and dotted(x.targets[0]) == 'self.fcs_enabled']
+    resend = [c for b in branch for s_ in b.body for c in calls_in(s_) if call_attr(c) == 'L2CAP_Configure_Request']
+    R.check(bool(adopt) and bool(resend) and adopt[0].lineno < resend[0].lineno, rule, 'bumble.l2cap.ClassicChannel.on_configure_response | suggestion adopted', 'the requester takes over the suggested FCS setting before it configures again',
+            'after UNACCEPTABLE_PARAMETERS the requester re-sends a request without adopting the suggested FCS setting: it keeps computing / expecting FCS while the peer does not (SDUs corrupted), or asks the same thing again', p.loc(rs))
+
+
 RULES = [
+    ('C08.fcs-negotiation', fcs_negotiation),
     ('C08.bytes-of-number', bytes_of_number_rule),
     ('C08.one-shot', one_shot_rule),
     ('C08.response-echo', response_echo_shared),
